@@ -335,6 +335,32 @@ def toast_tile_get_coords(tile):
     )
 
 
+def _toast_level0_get_coords(coordsys):
+    """
+    Get the coordinates of the pixel centers of the level-0 TOAST tile.
+
+    The level-0 tile covers the whole sphere and has no meaningful
+    :class:`Tile` description, but its 256x256 pixel grid is well-defined: it
+    consists of the 128x128 pixel grids of the four level-1 tiles.
+    """
+    lons = np.empty((256, 256))
+    lats = np.empty((256, 256))
+
+    for tile in _create_level1_tiles(coordsys):
+        x0 = 128 * tile.pos.x
+        y0 = 128 * tile.pos.y
+        lons[y0 : y0 + 128, x0 : x0 + 128], lats[y0 : y0 + 128, x0 : x0 + 128] = subsample(
+            tile.corners[0],
+            tile.corners[1],
+            tile.corners[2],
+            tile.corners[3],
+            128,
+            tile.increasing,
+        )
+
+    return lons, lats
+
+
 def toast_pixel_for_point(depth, lat, lon, coordsys=ToastCoordinateSystem.ASTRONOMICAL):
     """
     Identify the pixel within a TOAST tile at a given depth that contains the
@@ -666,7 +692,7 @@ def sample_layer(
     from .pyramid import Pyramid
 
     p = Pyramid.new_toast(depth, coordsys=coordsys)
-    proc = ToastSampler(pio, sampler, True, format=format)
+    proc = ToastSampler(pio, sampler, True, format=format, coordsys=coordsys)
     p.visit_leaves(proc.visit_callback, parallel=parallel, cli_progress=cli_progress)
 
 
@@ -711,7 +737,7 @@ def sample_layer_filtered(
     from .pyramid import Pyramid
 
     p = Pyramid.new_toast_filtered(depth, tile_filter, coordsys=coordsys)
-    proc = ToastSampler(pio, sampler, False, format=format)
+    proc = ToastSampler(pio, sampler, False, format=format, coordsys=coordsys)
     p.visit_leaves(proc.visit_callback, parallel=parallel, cli_progress=cli_progress)
 
 
@@ -733,6 +759,10 @@ class ToastSampler(object):
     format : optional :class:`str`
         If provided, override the default data storage format of *pio* with the
         named format, one of the values in ``toasty.image.SUPPORTED_FORMATS``.
+    coordsys : optional :class:`ToastCoordinateSystem`
+        The TOAST coordinate system in use. This is only needed to sample the
+        level-0 tile, which comes without tile coordinate information. Default
+        is :attr:`ToastCoordinateSystem.ASTRONOMICAL`.
 
     Notes
     -----
@@ -740,15 +770,28 @@ class ToastSampler(object):
     the :meth:`toasty.pyramid.Pyramid.visit_leaves` function. This class
     preserves some state between calls to help speed up processing."""
 
-    def __init__(self, pio, sampler, clobber, format=None):
+    def __init__(
+        self,
+        pio,
+        sampler,
+        clobber,
+        format=None,
+        coordsys=ToastCoordinateSystem.ASTRONOMICAL,
+    ):
         self._pio = pio
         self._sampler = sampler
         self._clobber = clobber
         self._format = format
+        self._coordsys = coordsys
         self._invert_into_tiles = pio.get_default_vertical_parity_sign() == 1
 
     def visit_callback(self, pos, tile):
-        lon, lat = toast_tile_get_coords(tile)
+        if tile is None:
+            # The level-0 tile of a depth-0 pyramid.
+            lon, lat = _toast_level0_get_coords(self._coordsys)
+        else:
+            lon, lat = toast_tile_get_coords(tile)
+
         sampled_data = self._sampler(lon, lat)
 
         if self._invert_into_tiles:
